@@ -66,8 +66,21 @@ def check_join_loop(rep, rule, fi, direction, source, why):
   for lp in loops:
     body = [core.norm(s) for s in lp.body]
     tgt = core.norm(lp.target)
-    shape = len(lp.body) == 1 and isinstance(lp.body[0], (ast.AugAssign, ast.Expr))
-    if shape and isinstance(lp.body[0], ast.AugAssign):
+    shape = len(lp.body) == 1 and isinstance(lp.body[0], (ast.AugAssign, ast.Expr,
+                                                          ast.Assign))
+    src = 'self.%s[%s]' % (source, tgt)
+    if shape and isinstance(lp.body[0], ast.Assign):
+      # X = X | S  /  X = S | X  /  X = X.union(S)
+      a = lp.body[0]
+      x = core.norm(a.targets[0])
+      v = a.value
+      shape = len(a.targets) == 1 and ((
+          isinstance(v, ast.BinOp) and isinstance(v.op, ast.BitOr) and
+          {core.norm(v.left), core.norm(v.right)} == {x, src} and x != src) or (
+              isinstance(v, ast.Call) and isinstance(v.func, ast.Attribute) and
+              v.func.attr == 'union' and core.norm(v.func.value) == x and
+              [core.norm(z) for z in v.args] == [src] and not v.keywords))
+    elif shape and isinstance(lp.body[0], ast.AugAssign):
       shape = isinstance(lp.body[0].op, ast.BitOr) and core.norm(
           lp.body[0].value) == 'self.%s[%s]' % (source, tgt)
     elif shape:
